@@ -138,7 +138,7 @@ theorem precommit_ok_inv (hs : Hs D) (st : RSt D) (p : Parsed) (skip : Bool) (r 
     ∃ es eh, setAll st.cfg [] (p.entries.map (toREntry hs p.truncated)) = .ok es ∧
       (es.length : Int) = p.hdr.nentries ∧ ehOf hs p.hdr.version es = .ok eh ∧
       st.lastPre + 1 = p.hdr.id ∧ hs.enc (st.preAlh hs) = p.hdr.prevAlh ∧
-      r.hdr = storedHdr hs st p es.length (if p.hdr.blTxID > 0 then p.hdr.blRoot else st.poolBlRoot) eh ∧
+      r.hdr = storedHdr hs st p es.length (if p.hdr.blTxID > 0 then p.hdr.blRoot else zeros32) eh ∧
       r.entries = es ∧ alhH hs r.hdr = .ok r.alh := by
   unfold precommit at h
   cases hes : setAll st.cfg [] (p.entries.map (toREntry hs p.truncated)) with
@@ -198,7 +198,7 @@ theorem precommit_ok_inv (hs : Hs D) (st : RSt D) (p : Parsed) (skip : Bool) (r 
   rw [if_neg c12] at h
   have c8' := Classical.not_not.1 c8
   rw [c8'] at h
-  cases ha : alhH hs (storedHdr hs st p es.length (if p.hdr.blTxID > 0 then p.hdr.blRoot else st.poolBlRoot) eh) with
+  cases ha : alhH hs (storedHdr hs st p es.length (if p.hdr.blTxID > 0 then p.hdr.blRoot else zeros32) eh) with
   | error x => rw [ha] at h; contradiction
   | ok a =>
   rw [ha] at h
@@ -220,9 +220,9 @@ theorem precommit_ok_of (hs : Hs D) (st : RSt D) (p : Parsed) (skip : Bool) (es 
                 else zeros32) = p.hdr.blRoot)
     (hprev : hs.enc (st.preAlh hs) = p.hdr.prevAlh)
     (hwin : ¬ (st.cfg.synced = true ∧ st.committed.length + st.cfg.maxActive ≤ st.lastPre))
-    (ha : alhH hs (storedHdr hs st p es.length (if p.hdr.blTxID > 0 then p.hdr.blRoot else st.poolBlRoot) eh) = .ok a) :
+    (ha : alhH hs (storedHdr hs st p es.length (if p.hdr.blTxID > 0 then p.hdr.blRoot else zeros32) eh) = .ok a) :
     precommit hs st p skip = .ok { hdr := (storedHdr hs st p es.length
-      (if p.hdr.blTxID > 0 then p.hdr.blRoot else st.poolBlRoot) eh), entries := es, alh := a } := by
+      (if p.hdr.blTxID > 0 then p.hdr.blRoot else zeros32) eh), entries := es, alh := a } := by
   unfold precommit
   rw [hes]
   dsimp only
@@ -381,16 +381,17 @@ theorem storedHdr_eq' (hs : Hs D) (st : RSt D) (p : Parsed) (n : Nat) (blRoot : 
   rw [h1, h2, h3, h4]
 
 /-- The `BlRoot` that ends up in the stored header of a genuine record: the genuine one for
-`BlTxID > 0`, the pooled `Tx`'s leftover otherwise. -/
-def storedBl (st : RSt D) (h : TxHdr) : Bytes := if h.blTxID > 0 then h.blRoot else st.poolBlRoot
+`BlTxID > 0`, the zero value otherwise. -/
+def storedBl (h : TxHdr) : Bytes := if h.blTxID > 0 then h.blRoot else zeros32
 
-theorem storedBl_fresh (hs : Hs D) (cfg : RCfg) (P : List (RRec D)) (hP : Genuine hs cfg P) (st : RSt D)
-    (k : Nat) (hk : k < P.length) (hpool : (P[k]).hdr.blTxID = 0 → st.poolBlRoot = zeros32) :
-    storedBl st (P[k]).hdr = (P[k]).hdr.blRoot := by
+/-- For a genuine record that IS its `BlRoot` (`BlTxID = 0` goes with the zero root). -/
+theorem storedBl_genuine (hs : Hs D) (cfg : RCfg) (P : List (RRec D)) (hP : Genuine hs cfg P)
+    (k : Nat) (hk : k < P.length) :
+    storedBl (P[k]).hdr = (P[k]).hdr.blRoot := by
   unfold storedBl
   by_cases hb : (P[k]).hdr.blTxID > 0
   · rw [if_pos hb]
-  · rw [if_neg hb, hpool (by omega), (hP.recs k hk).2.2.2.2.1, blRootOf, if_neg hb]
+  · rw [if_neg hb, (hP.recs k hk).2.2.2.2.1, blRootOf, if_neg hb]
 
 /-- The success of `Alh()` does not depend on `BlRoot`. -/
 theorem alhH_ok_blRoot (hs : Hs D) (h : TxHdr) (a : D) (x : Bytes) (ha : alhH hs h = .ok a) :
@@ -419,11 +420,11 @@ theorem alhH_ok_blRoot (hs : Hs D) (h : TxHdr) (a : D) (x : Bytes) (ha : alhH hs
 def IsP (P : List (RRec D)) (r : RRec D) : Prop :=
   ∃ k, ∃ (h : k < P.length), r.hdr.id = k + 1 ∧ SameTx r (P[k])
 
-/-- What an accepted genuine export leaves in the record, whatever the pooled `Tx` held. -/
+/-- What an accepted genuine export leaves in the record. -/
 theorem precommit_genuine_shape (hs : Hs D) (cfg : RCfg) (P : List (RRec D)) (hP : Genuine hs cfg P)
     (st : RSt D) (hcfg : SameLimits st.cfg cfg) (k : Nat) (hk : k < P.length) (tr skip : Bool) (r : RRec D)
     (h : precommit hs st (toParsed (P[k]) tr) skip = .ok r) :
-    st.lastPre = k ∧ r.hdr = { (P[k]).hdr with blRoot := storedBl st (P[k]).hdr } ∧
+    st.lastPre = k ∧ r.hdr = { (P[k]).hdr with blRoot := storedBl (P[k]).hdr } ∧
       r.entries = genEntries (P[k]) tr ∧ alhH hs r.hdr = .ok r.alh := by
   obtain ⟨g1, g2, g3, g4, g5, ⟨eh0, g6, g6'⟩, g7, g8, g9, g10⟩ := hP.recs k hk
   obtain ⟨es, eh, i1, i2, i3, i4, i5, i6, i7, i8⟩ := precommit_ok_inv hs st _ skip r h
@@ -441,13 +442,12 @@ theorem precommit_genuine_shape (hs : Hs D) (cfg : RCfg) (P : List (RRec D)) (hP
 
 theorem precommit_genuine_inv (hs : Hs D) (cfg : RCfg) (P : List (RRec D)) (hP : Genuine hs cfg P)
     (st : RSt D) (hcfg : SameLimits st.cfg cfg) (k : Nat) (hk : k < P.length) (tr skip : Bool) (r : RRec D)
-    (hpool : (P[k]).hdr.blTxID = 0 → st.poolBlRoot = zeros32)
     (h : precommit hs st (toParsed (P[k]) tr) skip = .ok r) :
     st.lastPre = k ∧ r.hdr.id = k + 1 ∧ SameTx r (P[k]) := by
   obtain ⟨g1, g2, g3, g4, g5, ⟨eh0, g6, g6'⟩, g7, g8, g9, g10⟩ := hP.recs k hk
   obtain ⟨s1, s2, s3, s4⟩ := precommit_genuine_shape hs cfg P hP st hcfg k hk tr skip r h
   have hh : r.hdr = (P[k]).hdr := by
-    rw [s2, storedBl_fresh hs cfg P hP st k hk hpool]
+    rw [s2, storedBl_genuine hs cfg P hP k hk]
   have ha : r.alh = (P[k]).alh := by
     rw [hh, g3] at s4
     injection s4 with s4
@@ -522,11 +522,11 @@ theorem precommit_genuine_ok (hs : Hs D) (cfg : RCfg) (P : List (RRec D)) (hP : 
       rw [if_pos ⟨hb, by omega⟩, if_pos hb, RSt.rootAt, halhs, e]
     · rw [if_neg (fun c => hb c.1), if_neg hb]
   have hst : storedHdr hs st (toParsed (P[n]) tr) (genEntries (P[n]) tr).length
-      (if (toParsed (P[n]) tr).hdr.blTxID > 0 then (toParsed (P[n]) tr).hdr.blRoot else st.poolBlRoot) eh0 =
-        { (P[n]).hdr with blRoot := storedBl st (P[n]).hdr } :=
+      (if (toParsed (P[n]) tr).hdr.blTxID > 0 then (toParsed (P[n]) tr).hdr.blRoot else zeros32) eh0 =
+        { (P[n]).hdr with blRoot := storedBl (P[n]).hdr } :=
     storedHdr_eq' hs st _ _ _ _ (by rw [hlp]; exact g1.symm) hprev
       (by rw [genEntries_length]; exact g7.symm) g6'.symm
-  obtain ⟨a', ha'⟩ := alhH_ok_blRoot hs _ _ (storedBl st (P[n]).hdr) g3
+  obtain ⟨a', ha'⟩ := alhH_ok_blRoot hs _ _ (storedBl (P[n]).hdr) g3
   refine ⟨_, precommit_ok_of hs st (toParsed (P[n]) tr) skip (genEntries (P[n]) tr) eh0 a'
     (setAll_genuine hs cfg st.cfg (P[n]) tr hcfg g10) ?_ mdb hmd ?_ ?_ ?_ g6'.symm ?_ hact ?_ ?_ hroot hprev ?_ ?_⟩
   · rw [genEntries_length]; exact g7.symm
@@ -670,7 +670,6 @@ theorem inv_restart {cfg : RCfg} {P : List (RRec D)} (hs : Hs D) {st : RSt D} (h
 
 theorem inv_replicate {cfg : RCfg} {P : List (RRec D)} (hs : Hs D) (hP : Genuine hs cfg P) {st : RSt D}
     (hi : Inv cfg P st) (b : Bytes) (skip : Bool) (k : Nat) (hk : k < P.length) (tr : Bool)
-    (hpool : ∀ h : st.lastPre < P.length, (P[st.lastPre]).hdr.blTxID = 0 → st.poolBlRoot = zeros32)
     (hparse : parseExported b = .ok (toParsed (P[k]) tr)) : Inv cfg P (replicate hs st b skip).st := by
   unfold replicate
   rw [hparse]
@@ -680,9 +679,7 @@ theorem inv_replicate {cfg : RCfg} {P : List (RRec D)} (hs : Hs D) (hP : Genuine
   | ok r =>
     dsimp only
     have hlim : SameLimits st.cfg cfg := by rw [hi.cfg]; exact ⟨rfl, rfl, rfl⟩
-    have hlp := (precommit_genuine_shape hs cfg P hP st hlim k hk tr skip r hpc).1
-    obtain ⟨p1, p2, p3⟩ := precommit_genuine_inv hs cfg P hP st hlim k hk tr skip r
-      (by subst hlp; exact hpool hk) hpc
+    obtain ⟨p1, p2, p3⟩ := precommit_genuine_inv hs cfg P hP st hlim k hk tr skip r hpc
     have hr : IsP P r := ⟨k, hk, p2, p3⟩
     by_cases c1 : st.pre.length ≥ st.bufCap
     · rw [if_pos c1]
@@ -704,7 +701,7 @@ theorem inv_replicate {cfg : RCfg} {P : List (RRec D)} (hs : Hs D) (hP : Genuine
       · have : x = (r, true) := by simpa using h
         rw [this]; exact hr
     have hi2 : ∀ (d w : Nat), Inv cfg P ({ st with log := st.log ++ [(r, true)], ghost := none,
-                                                    poolBlRoot := r.hdr.blRoot, waitDone := w, durable := d } : RSt D) :=
+                                                    waitDone := w, durable := d } : RSt D) :=
       fun d w => ⟨hi.cfg, hi.com, hl, fun r' h => (by cases h), hd⟩
     by_cases c2 : st.cfg.synced = true
     · rw [if_pos c2]
@@ -740,7 +737,7 @@ theorem inv_final {cfg : RCfg} {P : List (RRec D)} {st : RSt D} (hi : Inv cfg P 
     obtain ⟨h', _⟩ := key m (by omega)
     omega
 
--- ------------------------------------------------------------------ explicit steps (for the stale-`BlRoot` witness)
+-- ------------------------------------------------------------------ explicit steps (for the re-replication-from-genesis run)
 
 theorem mayCommit_zero (st : RSt D) (h : st.commitAllowedUpTo - st.committed.length = 0) :
     mayCommit st = .ok st := by
@@ -755,8 +752,7 @@ theorem replicate_ext0 (hs : Hs D) (st : RSt D) (b : Bytes) (skip : Bool) (p : P
     (ha : st.allowed = 0) (hc : st.committed = []) :
     (replicate hs st b skip).st.cfg = st.cfg ∧ (replicate hs st b skip).st.committed = [] ∧
     (replicate hs st b skip).st.log = st.log ++ [(r, true)] ∧ (replicate hs st b skip).st.allowed = 0 ∧
-    (replicate hs st b skip).st.bufCap = st.bufCap ∧ st.lastPre + 1 ≤ (replicate hs st b skip).st.waitDone ∧
-    (replicate hs st b skip).st.poolBlRoot = r.hdr.blRoot := by
+    (replicate hs st b skip).st.bufCap = st.bufCap ∧ st.lastPre + 1 ≤ (replicate hs st b skip).st.waitDone := by
   unfold replicate
   rw [hparse]
   dsimp only
@@ -765,7 +761,7 @@ theorem replicate_ext0 (hs : Hs D) (st : RSt D) (b : Bytes) (skip : Bool) (p : P
   rw [if_neg (by omega), if_neg (by simp [hsy])]
   rw [mayCommit_zero _ (by simp [RSt.commitAllowedUpTo, hx, ha])]
   dsimp only
-  refine ⟨rfl, hc, rfl, ha, rfl, ?_, rfl⟩
+  refine ⟨rfl, hc, rfl, ha, rfl, ?_⟩
   split <;> omega
 
 theorem discard_fields (st : RSt D) (txID : Nat) (h1 : txID ≠ 0) (h2 : ¬ txID ≤ st.committed.length)
@@ -773,10 +769,10 @@ theorem discard_fields (st : RSt D) (txID : Nat) (h1 : txID ≠ 0) (h2 : ¬ txID
     (discardSince st txID).st.cfg = st.cfg ∧ (discardSince st txID).st.committed = st.committed ∧
     (discardSince st txID).st.log = keepLive (st.pre.length - (st.lastPre + 1 - txID)) st.log ∧
     (discardSince st txID).st.allowed = st.allowed ∧ (discardSince st txID).st.bufCap = st.bufCap ∧
-    (discardSince st txID).st.waitDone = st.waitDone ∧ (discardSince st txID).st.poolBlRoot = st.poolBlRoot := by
+    (discardSince st txID).st.waitDone = st.waitDone := by
   unfold discardSince
   rw [if_neg h1, if_neg h2, if_neg h3]
-  exact ⟨rfl, rfl, rfl, rfl, rfl, rfl, rfl⟩
+  exact ⟨rfl, rfl, rfl, rfl, rfl, rfl⟩
 
 theorem chain_of_fields (st : RSt D) (L : List (RRec D × Bool)) (hc : st.committed = []) (hl : st.log = L) :
     st.chain = live L ∧ st.pre = live L ∧ st.lastPre = (live L).length := by
